@@ -19,8 +19,8 @@ def seq(t):
             return [("atom", t)]     # a container-valued field of an input atom
     if t[0] == "call" and t[1] in NEW:
         return []
-    if t[0] == "array" and not t[1]:
-        return []
+    if t[0] == "array":
+        return [("elem", x) for x in t[1]]      # vec![a, b, ..] / an array literal: exactly those elements
     if t[0] == "mutated" and t[2] == 0:
         name = t[1]
         base = seq(t[3][0])
